@@ -29,7 +29,7 @@ prop("C13",
            "projector with random symmetry flags/cache/tangential rays, or the class's default on-the-fly projector) | "
            "PETFromComponents (allocate + random efficiencies/geometric/block factors) | a table class behind "
            "BinNormalisationWithCalibration (BinNormalisation's default apply/undo) | Chained of 1-3 of these (both nestings, "
-           "null member for a chain of one).  Every bin of the data is checked.  non-trivial = the data have >= 2 views and the "
+           "a chain of one is (a, Trivial) or (Trivial, a)).  Every bin of the data is checked.  non-trivial = the data have >= 2 views and the "
            "efficiencies are not all equal; distinct = distinct configuration descriptor"),
      technique=("runtime monitoring: the real normalisation classes are driven through every public route (related viewgrams under "
                 "several symmetry groupings, whole-ProjData overloads) on generated in-memory data and compared bin by bin with the "
@@ -60,5 +60,7 @@ prop("C13",
                   "block-geometry scanners are generated without TOF (Scanner::check_consistency reads max_FOV_radius before it is "
                   "initialised for TOF block scanners - not this property's subject); arc-corrected data keep every line of response "
                   "inside the detector ring",
-                  "at most one member with a calibration factor per chain (ChainedBinNormalisation rejects two)"],
+                  "at most one member with a calibration factor per chain (ChainedBinNormalisation rejects two); both members of a "
+                  "ChainedBinNormalisation are always non-null (the class documents two member objects; its constructor "
+                  "dereferences both, so a null member crashes - a robustness bug outside this property's statement)"],
      )
